@@ -26,7 +26,7 @@ func init() {
 			"oracle against the permissive reference inflater (upper bound) and compress/flate (lower bound); non-trivial = the input is at least 2 bytes long",
 		Assumptions: []string{"the permissive reference inflater decides what 'begins with a complete well-formed stream' means and which bytes may be handed out",
 			"'no hang' is decided by a livelock counter (1000 consecutive empty reads) and the driver's worker timeout, not by proof"},
-		Quick:    TierSpec{MaxDev: -1, Shards: 8, ShardDepth: 4, BudgetS: 200},
+		Quick:    TierSpec{MaxDev: -1, Shards: 8, ShardDepth: 4, BudgetS: 600},
 		Thorough: TierSpec{MaxDev: -1, Shards: 16, ShardDepth: 4, BudgetS: 2400},
 		Harness:  c03Harness,
 	})
